@@ -32,7 +32,10 @@ Definition op_ordered (v : val) : val := ebool (ordered_check (d_orders (dnth 0 
 Definition op_algo (v : val) : val :=
   eresult (eoption (elist (elist eN))) (sc_algo (d_order (dnth 0 v)) (d_orders (dnth 1 v))).
 
+(* c04.csalgo (orders) -> bool : literal mirror of is_single_crossing_conflict_sets *)
+Definition op_csalgo (v : val) : val := ebool (conflict_sets_algo (d_orders (dnth 0 v))).
+
 Definition ops : optable :=
   [ ("c04.decide", op_decide); ("c04.cdecide", op_cdecide); ("c04.check", op_check);
     ("c04.seqcheck", op_seqcheck); ("c04.core", op_core); ("c04.ordered", op_ordered);
-    ("c04.algo", op_algo) ].
+    ("c04.algo", op_algo); ("c04.csalgo", op_csalgo) ].
